@@ -723,10 +723,10 @@ class C01(ost.OutstationProp):
     def cases(self, rng, tier):
         quick = tier == "quick"
         out = []
-        out += self.cases_link(rng, 170 if quick else 7000)
-        out += self.cases_outstation(rng, 260 if quick else 8000)
-        out += self.cases_app(rng, 90 if quick else 3000)
-        out += self.cases_master(rng, 100 if quick else 3000)
+        out += self.cases_link(rng, 220 if quick else 7000)
+        out += self.cases_outstation(rng, 320 if quick else 8000)
+        out += self.cases_app(rng, 100 if quick else 3000)
+        out += self.cases_master(rng, 120 if quick else 3000)
         return out
 
     def oracle(self, case, impl):
